@@ -552,7 +552,35 @@ class Mat:
     def T(self):
         return self._new(self.cols, self.rows, [self.at(i, j) for i in range(self.rows) for j in range(self.cols)])
 
+    def _symbolic_index(self, ix):
+        return isinstance(ix, Mat) and any(not isnum(v) for v in ix.e)
+
+    def _select(self, idx_entry, items):
+        """If-chain: items[idx] for a symbolic integer-valued index entry (out of range: first/last item)"""
+        n = len(items)
+        iz = tz(idx_entry)
+        out = []
+        for comp in range(len(items[0])):
+            t = tz(items[n - 1][comp])
+            for j in range(n - 2, -1, -1):
+                t = z3.If(iz <= j, tz(items[j][comp]), t)
+            out.append(t)
+        return out
+
     def __getitem__(self, key):
+        if isinstance(key, tuple) and self._symbolic_index(key[1]) and isinstance(key[0], slice) and key[0] == slice(None):
+            # m[:, I] with symbolic column indices
+            cols = [self.e[j * self.rows:(j + 1) * self.rows] for j in range(self.cols)]
+            e = []
+            for v in key[1].e:
+                e.extend(self._select(v, cols) if not isnum(v) else cols[_norm_index(to_float(v), self.cols)])
+            return MX._raw(self.rows, key[1].numel(), e)
+        if not isinstance(key, (tuple, slice)) and self._symbolic_index(key):
+            items = [[x] for x in self.e]
+            e = []
+            for v in key.e:
+                e.extend(self._select(v, items) if not isnum(v) else items[_norm_index(to_float(v), len(items))])
+            return MX._raw(key.rows, key.cols, e) if not (self.rows == 1 and self.cols != 1) else MX._raw(1, key.numel(), e)
         if isinstance(key, Sparsity):
             if key.shape != self.shape:
                 raise Undecided("sparsity indexing with a different shape")
@@ -1383,12 +1411,28 @@ def _fold(x):
 
 
 def low(grid, t, *a):
+    """index i with grid[i] <= t < grid[i+1], clipped to [0, n-2]  (A-CASADI; default lookup mode).
+    lookup_mode 'exact' = CasADi's equidistant-grid shortcut: floor((t-g0)/(g_last-g0)*(n-1)), clipped."""
     grid, t = _coerce(grid), _coerce(t)
+    opts = a[0] if a else {}
     if t.numel() != 1:
         raise Undecided("low on a vector")
-    r = MX._raw(1, 1, [_LOW(tz(0.0), tz(t.e[0]))])
-    r._low = (grid, t)
-    return r
+    g = [tz(x) for x in grid.e]
+    n = len(g)
+    tt = tz(t.e[0])
+    mode = opts.get("lookup_mode", "linear") if isinstance(opts, dict) else "linear"
+    if mode == "exact":
+        pos = (tt - g[0]) / (g[-1] - g[0]) * (n - 1)
+        idx = z3.RealVal(n - 2)
+        for j in range(n - 3, -1, -1):
+            idx = z3.If(pos < j + 1, z3.RealVal(j), idx)
+    elif mode in ("linear", "binary", "auto"):
+        idx = z3.RealVal(n - 2)
+        for j in range(n - 3, -1, -1):
+            idx = z3.If(tt < g[j + 1], z3.RealVal(j), idx)
+    else:
+        raise Undecided("low: lookup_mode %r" % mode)
+    return MX._raw(1, 1, [idx])
 
 
 def if_else(*a): raise Undecided("if_else")
@@ -1652,8 +1696,11 @@ class _Integrator(Function):
     """Opaque flow map: outputs are uninterpreted functions of (x0, p, z0) tagged by the
     identity of the DAE it was built from."""
     _count = itertools.count()
+    _all = []
 
     def __init__(self, name, plugin, dae, *rest):
+        _Integrator._all.append(self)
+        self.last_call = None
         self._name = name
         self.plugin = plugin
         self.dae = dae
@@ -1680,6 +1727,7 @@ class _Integrator(Function):
         return {"xf": mk("xf", self.nx), "zf": mk("zf", self.nz), "qf": mk("qf", self.nq)}
 
     def __call__(self, **kw):
+        self.last_call = dict(kw)
         x0 = _coerce(kw.get("x0", DM.zeros(self.nx)))
         p = _coerce(kw.get("p", DM.zeros(self.np_)))
         z0 = _coerce(kw.get("z0", DM.zeros(self.nz)))
